@@ -359,4 +359,65 @@ def findNode (top : Bytes) (fqids : List Bytes) (name : Bytes) : Option Nat :=
 object's current uniquifier. -/
 def cacheAccepts (own seen : Bytes) : Bool := own == seen
 
+/-! ## Routing a journal file name (`Node.refreshState`)
+
+`parseRunFilename`, then `find` from the pipestance's top node, then `getFork`
+on the node found; an empty first group counts as a parse failure.  The result
+names the node (list position), the fork (list position) and the job record
+(chunk digits, uniquifier, metadata file). -/
+
+structure NodeM where
+  fqid : Bytes
+  /-- what follows `<fqid>.fork` in each fork's fqname, in list order -/
+  forks : List Bytes
+  deriving Repr, DecidableEq
+
+def route (top : Bytes) (nodes : List NodeM) (s : Bytes) :
+    Option (Nat × Nat × Option Bytes × Option Bytes × Bytes) :=
+  match parseRun s with
+  | none => none
+  | some x =>
+    if x.fqid.isEmpty then none else
+    match findNode top (nodes.map (·.fqid)) x.fqid with
+    | none => none
+    | some n =>
+      match getForkNew ((nodes.getD n ⟨[], []⟩).forks) x.forkPart with
+      | none => none
+      | some f => some (n, f, x.chunk, x.uniq, x.file)
+
+/-! ## Attempts of one job
+
+`attempt` counts (re)starts; `draw k` is the uniquifier the k-th attempt is
+given (`uniquify` after `uncheckedReset` cleared / advanced the old one);
+`recorded` is the metadata cache: which attempt each recorded notification is
+credited to.  A notification written by a process of attempt `k` carries
+`draw k`; `Metadata.cache` accepts it iff it equals the current uniquifier. -/
+
+structure JobState (U : Type) where
+  attempt : Nat
+  uniq : U
+  recorded : List (Nat × Bytes)
+
+inductive JobEv where
+  | reset
+  | notify (k : Nat) (file : Bytes)
+  deriving DecidableEq
+
+def jobStep {U : Type} [DecidableEq U] (draw : Nat → U) (s : JobState U) : JobEv → JobState U
+  | .reset => ⟨s.attempt + 1, draw (s.attempt + 1), []⟩
+  | .notify k file => if s.uniq = draw k then ⟨s.attempt, s.uniq, (s.attempt, file) :: s.recorded⟩ else s
+
+def jobRun {U : Type} [DecidableEq U] (draw : Nat → U) : JobState U → List JobEv → JobState U
+  | s, [] => s
+  | s, e :: es => jobRun draw (jobStep draw s e) es
+
+/-- the time part of the uniquifier that follows `old` when the clock reads
+`now` (`nextUniquifier`, same process) -/
+def nextTime (old now : Nat) : Nat := if now ≤ old then old + 1 else now
+
+/-- the times of successive attempts of one job, given the clock readings -/
+def attemptTime (now : Nat → Nat) : Nat → Nat
+  | 0 => now 0
+  | k + 1 => nextTime (attemptTime now k) (now (k + 1))
+
 end Martian.ForkName
